@@ -7,15 +7,16 @@
 (* are transcribed from the code:                                             *)
 (*   CsvFile   Python's csv.writer (excel dialect, lineterminator "\n") as    *)
 (*             used by Table.write for csv/tsv                                *)
-(*   SepFile   cogent3.format.table.separator_format as used by to_csv,       *)
-(*             to_tsv and to_string(sep=...)                                  *)
+(*   SepFile   cogent3.format.table.separator_format (one-character          *)
+(*             separator) as used by to_csv, to_tsv and to_string(sep=...)    *)
 (*   Parse     Python's csv.reader (excel dialect, non strict) as used by     *)
 (*             parse.table.load_delimited                                     *)
 (* Group "design": TLC enumerates every small table of text over an alphabet  *)
 (* containing the separators, the quote and the newline and checks            *)
 (*   CsvWriterLossless     Parse(CsvFile(t)) = t            for all t         *)
-(*   SepFormatSafe         Safe(t) => Parse(SepFile(t)) = t                   *)
-(* and (separate cfg, expected to be violated) SepFormatLossless.  Each table *)
+(*   SepFormatLossless     Parse(SepFile(t)) = t            for all t         *)
+(* (the second failed, with an embedded-quote counterexample, until           *)
+(* separator_format was repaired; see known_findings.d/C20.txt).  Each table  *)
 (* is emitted with the three model outputs so that the harness can compare    *)
 (* them with the real csv.writer, csv.reader and separator_format.            *)
 (* Group "io": typed tables (cells <<tag, chars>> as in Table.tla) x output   *)
@@ -55,13 +56,10 @@ CsvRecord(r, sep) == IF r = <<<<>>>> THEN <<Q, Q, NL>>
                      ELSE JoinWith(Map(r, LAMBDA f : CsvField(f, sep)), sep) \o <<NL>>
 CsvFile(rows, sep) == Concat(Map(rows, LAMBDA r : CsvRecord(r, sep)))
 
-(* separator_format: the header is joined as it is; a body cell is wrapped in *)
-(* quotes iff it contains the separator; nothing is escaped; lines are joined  *)
-(* with "\n" (Table.write / a caller adds the final newline)                   *)
-SepField(f, sep) == IF Has(f, sep) THEN <<Q>> \o f \o <<Q>> ELSE f
-SepFile(rows, sep) ==
-    JoinWith(<<JoinWith(rows[1], sep)>> \o
-             Map(Tail(rows), LAMBDA r : JoinWith(Map(r, LAMBDA f : SepField(f, sep)), sep)), NL) \o <<NL>>
+(* separator_format with a one-character separator: header and rows are written *)
+(* with csv.writer (since the fix of the unescaped-quote defects); the function  *)
+(* strips the final newline and Table.write / the caller adds it back             *)
+SepFile(rows, sep) == CsvFile(rows, sep)
 
 (* csv.reader over the lines of a text file.  States of CPython's _csv.c:     *)
 (*   SR start of record, SF start of field, IF in unquoted field,             *)
@@ -117,14 +115,7 @@ RoundTrips(rows, file, sep) == Parse(file, sep) = rows
 
 CsvWriterLossless == \A sep \in Seps : RoundTrips(tab, CsvFile(tab, sep), sep)
 
-(* a sufficient condition for separator_format to be lossless *)
-Safe(rows, sep) ==
-    /\ \A i \in 1..Len(rows) : \A j \in 1..Len(rows[i]) : ~Has(rows[i][j], Q) /\ ~Has(rows[i][j], NL)
-    /\ \A j \in 1..Len(rows[1]) : ~Has(rows[1][j], sep)
-    /\ Len(rows[1]) = 1 => \A i \in 1..Len(rows) : rows[i][1] # <<>>
-SepFormatSafe == \A sep \in Seps : Safe(tab, sep) => RoundTrips(tab, SepFile(tab, sep), sep)
-
-(* NOT a theorem: TLC is expected to produce a counterexample (MC_Table_textcx.cfg) *)
+(* to_csv / to_tsv / to_string(sep=...) text is lossless as well *)
 SepFormatLossless == \A sep \in Seps : RoundTrips(tab, SepFile(tab, sep), sep)
 
 -----------------------------------------------------------------------------
@@ -276,12 +267,7 @@ Spec == Init /\ [][Next]_vars
 (* laws are evaluated on the designated successor so that TLC's workers share the work *)
 AtLaws == done /\ "laws" \in DOMAIN res
 LawCsvWriterLossless == (AtLaws /\ Group = "design") => CsvWriterLossless
-LawSepFormatSafe     == (AtLaws /\ Group = "design") => SepFormatSafe
-(* expected to FAIL, even for tables whose header is plain and whose cells are non-empty and *)
-(* free of newlines: the counterexample is a cell with an embedded quote                    *)
-Tame(rows) == /\ \A i \in 1..Len(rows) : \A j \in 1..Len(rows[i]) : rows[i][j] # <<>> /\ ~Has(rows[i][j], NL)
-              /\ \A j \in 1..Len(rows[1]) : \A c \in {COMMA, TAB, Q} : ~Has(rows[1][j], c)
-LawSepFormatLossless == (AtLaws /\ Group = "design" /\ Tame(tab)) => SepFormatLossless
+LawSepFormatLossless == (AtLaws /\ Group = "design") => SepFormatLossless
 
 (* io group: the csv.writer path is predicted lossless for every typed table (missing -> "") *)
 LawWriterPathLossless ==
